@@ -15,7 +15,7 @@ use std::sync::Mutex;
 
 pub const ID: &str = "C11";
 
-const SRC: [&str; 15] = [
+const SRC: [&str; 17] = [
     "v + 1",
     "q",
     "[1, 2].map(v, v + w)",
@@ -37,6 +37,10 @@ const SRC: [&str; 15] = [
     "[3, 9, 4]",
     "[q, q]",
     "size([q, [q]]) + max(5, size(string(q)))",
+    // a conversion of the variable (an empty text is no instant), a program that reads `q` through
+    // another program's failure, and one that tells 1 from 1.0
+    "timestamp(v)",
+    "[type(v), v / 2]",
 ];
 const PROGS: [&str; 3] = ["m", "q", "r"];
 const VARS: [&str; 2] = ["v", "w"];
@@ -46,6 +50,9 @@ fn value(id: u8) -> CelValue {
         0 => CelValue::Int(1),
         1 => CelValue::String("x".into()),
         2 => CelValue::Int(10),
+        // equal to the int 1 under `==`, but another value
+        4 => CelValue::Float(1.0),
+        5 => CelValue::String(String::new()),
         _ => CelValue::Int(2),
     }
 }
@@ -64,7 +71,7 @@ pub enum Op {
     Details(u8, u8),
 }
 
-pub const OPS: [Op; 25] = [
+pub const OPS: [Op; 29] = [
     Op::Add(0, 0, 0),
     Op::Add(0, 0, 1),
     Op::Add(0, 1, 2),
@@ -80,6 +87,10 @@ pub const OPS: [Op; 25] = [
     Op::Add(1, 1, 12),
     Op::Add(0, 0, 13),
     Op::Add(0, 0, 14),
+    Op::Add(0, 2, 15),
+    Op::Add(0, 2, 16),
+    Op::Bind(0, 0, 4),
+    Op::Bind(0, 0, 5),
     Op::Bind(0, 0, 0),
     Op::Bind(0, 0, 1),
     Op::Bind(0, 1, 2),
@@ -248,6 +259,25 @@ fn check_state(h: &[Op], abs: &Abs, real: &mut Real, execs: &[(usize, Outcome)],
                             format!("bytecode of a fresh compile of `{}`", SRC[*s as usize]),
                             format!("{:?}", prog.bytecode()),
                         );
+                    } else {
+                        // what inspecting the details shows: the parameters of a fresh compile
+                        let fresh = fresh_program(*s);
+                        let (mut want, mut have): (Vec<&str>, Vec<&str>) = (fresh.params(), prog.params());
+                        want.sort();
+                        have.sort();
+                        let details: Option<Vec<String>> = real.ctx[c].program_details(PROGS[p as usize]).map(|d| {
+                            let mut v: Vec<String> = d.params().iter().map(|x| x.to_string()).collect();
+                            v.sort();
+                            v
+                        });
+                        if want != have || details.as_ref().map(|d| d.iter().map(|x| x.as_str()).collect::<Vec<_>>()) != Some(want.clone()) {
+                            acc.violation(
+                                "stored-program-parameters-changed",
+                                case(),
+                                format!("parameters of a fresh compile of `{}`: {:?}", SRC[*s as usize], want),
+                                format!("program: {:?}, details: {:?}", have, details),
+                            );
+                        }
                     }
                 }
                 (a, g) => acc.violation(
@@ -596,7 +626,7 @@ pub fn replay_families(t: Tier) -> Vec<Family<'static>> {
 pub fn run(t: Tier) -> i32 {
     let mut rep = Report::new(ID, t, "model_checking");
     rep.rule = format!(
-        "model: two contexts (name -> source over 3 names, 15 colliding sources: a variable, a reference to another program, a macro whose loop variable is named like a bound variable, map macros, a macro shadowing w and reading q, a program referring to itself, keys differing only in case, two texts differing only in blanks inside a literal, a map comparison with a failing entry, two programs without identifiers and two readers of them - one as a plain operand, one inside a foldable call) and two binding sets (2 variables, 4 values); 25 operations (add/replace x15, bind/rebind x4, clone context, clone bindings, exec x3, inspect details). bfs: breadth-first search to depth {} (or closure) deduplicated on the canonical abstract state, every transition executed on real objects rebuilt by replaying the history and the successor checked on every arrival; histories: every history of length 1..{} without deduplication ({} histories). interference: each of 126 programs over regex patterns, zones, units, durations, timestamps and map macros gives, after all the others ran twice on the same thread, the result it gives on a thread that ran nothing else. Invariants after every history: the real objects hold exactly the model state (sources, bytecode equal to a fresh compile, bindings); every stored program under both binding sets, executed twice (40 times for histories of length <= 2), equals the result of freshly built objects holding the same abstract state; every exec inside the history gave what the state before it determines. Non-trivial = every history; distinct by history",
+        "model: two contexts (name -> source over 3 names, 17 colliding sources: a variable, a reference to another program, a macro whose loop variable is named like a bound variable, map macros, a macro shadowing w and reading q, a program referring to itself, keys differing only in case, two texts differing only in blanks inside a literal, a map comparison with a failing entry, two programs without identifiers and two readers of them - one as a plain operand, one inside a foldable call) and two binding sets (2 variables, 4 values); 29 operations (add/replace x17, bind/rebind incl. a double equal to a bound int under == and an empty text, bind/rebind x4, clone context, clone bindings, exec x3, inspect details). bfs: breadth-first search to depth {} (or closure) deduplicated on the canonical abstract state, every transition executed on real objects rebuilt by replaying the history and the successor checked on every arrival; histories: every history of length 1..{} without deduplication ({} histories). interference: each of 126 programs over regex patterns, zones, units, durations, timestamps and map macros gives, after all the others ran twice on the same thread, the result it gives on a thread that ran nothing else. Invariants after every history: the real objects hold exactly the model state (sources, bytecode and reported parameters equal to a fresh compile, bindings); every stored program under both binding sets, executed twice (40 times for histories of length <= 2), equals the result of freshly built objects holding the same abstract state; every exec inside the history gave what the state before it determines. Non-trivial = every history; distinct by history",
         t.pick(6, 12),
         t.pick(4, 5),
         (1..=t.pick(4u32, 5u32)).map(|l| (OPS.len() as u64).pow(l)).sum::<u64>()
